@@ -137,6 +137,10 @@ impl SignedPacket {
         if bytes.len() > MAX_SIGNED_PACKET_SIZE {
             return Err(e!(SignedPacketVerifyError::TooLarge { len: bytes.len() }));
         }
+        // The signature is not verified, but the key must at least be a valid one:
+        // `Self::public_key` relies on it.
+        PublicKey::try_from(&bytes[..32])
+            .map_err(|e| e!(SignedPacketVerifyError::InvalidKey, e))?;
         Packet::parse(&bytes[104..])
             .map_err(|e| e!(SignedPacketVerifyError::DnsError, anyerr!(e)))?;
         Ok(SignedPacket {
